@@ -207,11 +207,13 @@ class Tr:
             if f == 'int' and len(args) == 1 and self.ty(args[0]) == 'Bool':
                 return '(if %s then 1 else 0)' % self.expr(args[0])
             if f == 'numpy.diff' and len(args) == 1:
-                return '(Src.diff %s)' % self.expr(args[0])
+                return '(%s %s)' % (self.spec.get('diff_fn', 'Src.diff'), self.expr(args[0]))
             if f == 'numpy.arange' and len(args) == 1:
                 return '(Src.arange %s)' % self.expr(args[0])
             if f == 'numpy.zeros' and len(args) == 1 and want == 'List AR':
                 return '(Src.zerosAR %s)' % self.expr(args[0])
+            if f == 'numpy.zeros' and len(args) == 1 and want == 'List ARX':
+                return '(Src.zerosARX %s)' % self.expr(args[0])
             if f in ('int',) and len(args) == 1:
                 return self.expr(args[0])
             if f == 'abs' and len(args) == 1:
@@ -873,6 +875,17 @@ KERNELS = [
                 'dbetas': 'List Rat'},
          bind={'self.ntemps': 'ntemps', 'self.betas': 'betas', "stats['logl']": 'logls'},
          draws={'self.random_generator.uniform()': 'us'},
+         skip=['stats = self.current_stats'],
+         carried=['swap_index', 'loglk', 'ars', 'us'],
+         loop_locals=['swk', 'tj', 'loglj', 'swj', 'logar', 'ar', 'swap', 'u', 'drawn_us'],
+         stop_before='new_positions = ', result='(swap_index, ars, loglk, us)'),
+    dict(name='sweepLoopX', file='epsie/chain/ptchain.py', cls='ParallelTemperedChain', func='swap_temperatures',
+         params=[('ntemps', 'Int'), ('betas', 'List EL'), ('logls', 'List EL'), ('us', 'List Rat')],
+         ret='List Int × List ARX × EL × List Rat',
+         types={'ar': 'ARX', 'logar': 'EL', 'ars': 'List ARX', 'swap_index': 'List Int', 'loglk': 'EL',
+                'dbetas': 'List EL'},
+         bind={'self.ntemps': 'ntemps', 'self.betas': 'betas', "stats['logl']": 'logls'},
+         draws={'self.random_generator.uniform()': 'us'}, exp_fn='ARX.ofExp', exp_ty='ARX', diff_fn='Src.diffX',
          skip=['stats = self.current_stats'],
          carried=['swap_index', 'loglk', 'ars', 'us'],
          loop_locals=['swk', 'tj', 'loglj', 'swj', 'logar', 'ar', 'swap', 'u', 'drawn_us'],
